@@ -93,6 +93,13 @@ func lexSpec(src string) ([]tok, error) {
 			for j < len(rs) && (unicode.IsLetter(rs[j]) || unicode.IsDigit(rs[j]) || rs[j] == '_' || rs[j] == '$') {
 				j++
 			}
+			// name#k: the k-th local of that name (in source order)
+			if j+1 < len(rs) && rs[j] == '#' && unicode.IsDigit(rs[j+1]) {
+				j++
+				for j < len(rs) && unicode.IsDigit(rs[j]) {
+					j++
+				}
+			}
 			out = append(out, tok{"id", string(rs[i:j]), i})
 			i = j
 		case unicode.IsDigit(c):
